@@ -42,6 +42,112 @@ func (p prefixReader) ReadHashes(ix []int64) ([]tlog.Hash, error) {
 	return p.lg.ReadHashes(ix)
 }
 
+type aliasReader struct {
+	store    []tlog.Hash
+	memo     map[string][]tlog.Hash
+	memoCopy map[string][]tlog.Hash
+}
+
+func (a *aliasReader) ReadHashes(ix []int64) ([]tlog.Hash, error) {
+	for _, x := range ix {
+		if x < 0 || x >= int64(len(a.store)) {
+			return nil, fmt.Errorf("index %d out of range", x)
+		}
+	}
+	consecutive := len(ix) > 0
+	for i := 1; i < len(ix); i++ {
+		if ix[i] != ix[i-1]+1 {
+			consecutive = false
+		}
+	}
+	if consecutive {
+		return a.store[ix[0] : ix[0]+int64(len(ix))], nil // zero copy
+	}
+	k := fmt.Sprint(ix)
+	if s, ok := a.memo[k]; ok {
+		return s, nil
+	}
+	out := make([]tlog.Hash, len(ix))
+	for i, x := range ix {
+		out[i] = a.store[x]
+	}
+	a.memo[k] = out
+	a.memoCopy[k] = append([]tlog.Hash(nil), out...)
+	return out, nil
+}
+
+func aliasing(r *fw.Run) {
+	l := fw.NewLocal()
+	defer r.Merge(l)
+	N := r.Pick(40, 70)
+	r.Bounds["aliasing_readers_up_to"] = N
+	lg, err := tlogx.Build(tlogx.Pattern(0, N))
+	if err != nil {
+		r.Violation("aliasing:build", err.Error(), nil)
+		return
+	}
+	pristine := append([]tlog.Hash(nil), lg.Store...)
+	ar := &aliasReader{store: append([]tlog.Hash(nil), lg.Store...), memo: map[string][]tlog.Hash{}, memoCopy: map[string][]tlog.Hash{}}
+	intact := func(what string, n, m int64) bool {
+		for i := range pristine {
+			if ar.store[i] != pristine[i] {
+				r.Violation("aliasing:"+what, fmt.Sprintf("%s(%d,%d) wrote into memory handed out by the HashReader: stored hash %d changed", what, n, m, i), caseT{Kind: "aliasing", N: n, M: m, Text: what})
+				copy(ar.store, pristine)
+				return false
+			}
+		}
+		for k, s := range ar.memo {
+			for i := range s {
+				if s[i] != ar.memoCopy[k][i] {
+					r.Violation("aliasing:"+what, fmt.Sprintf("%s(%d,%d) wrote into a slice returned by the HashReader (request %s, element %d)", what, n, m, k, i), caseT{Kind: "aliasing", N: n, M: m, Text: what})
+					copy(s, ar.memoCopy[k])
+					return false
+				}
+			}
+		}
+		return true
+	}
+	for n := int64(1); n <= int64(N); n++ {
+		cnt := tlog.StoredHashCount(n)
+		sub := &aliasReader{store: ar.store[:cnt], memo: ar.memo, memoCopy: ar.memoCopy}
+		for rep := 0; rep < 2; rep++ {
+			l.States++
+			l.Execs += 3
+			l.Transitions += 3
+			th, err := tlog.TreeHash(n, sub)
+			if err != nil || th != lg.Root(int(n)) {
+				r.Violation(fmt.Sprintf("aliasing:treehash:%d:%d", n, rep), fmt.Sprintf("TreeHash(%d) over a reader that hands out its own memory (call %d) = %v, %v; RFC 6962 says %v", n, rep+1, th, err, lg.Root(int(n))), caseT{Kind: "aliasing", N: n, Text: "TreeHash"})
+			}
+			intact("TreeHash", n, 0)
+			for m := int64(0); m < n; m++ {
+				p, err := tlog.ProveRecord(n, m, sub)
+				if err != nil || tlog.CheckRecord(p, n, lg.Root(int(n)), m, tlog.Hash(lg.Ref.Leaves[m])) != nil {
+					r.Violation(fmt.Sprintf("aliasing:proverecord:%d:%d", n, m), fmt.Sprintf("ProveRecord(%d,%d) over a reader that hands out its own memory (call %d) gives a proof that does not verify (err=%v)", n, m, rep+1, err), caseT{Kind: "aliasing", N: n, M: m, Text: "ProveRecord"})
+				}
+				intact("ProveRecord", n, m)
+				tp, err := tlog.ProveTree(n, m+1, sub)
+				if err != nil || tlog.CheckTree(tp, n, lg.Root(int(n)), m+1, lg.Root(int(m+1))) != nil {
+					r.Violation(fmt.Sprintf("aliasing:provetree:%d:%d", n, m+1), fmt.Sprintf("ProveTree(%d,%d) over a reader that hands out its own memory (call %d) gives a proof that does not verify (err=%v)", n, m+1, rep+1, err), caseT{Kind: "aliasing", N: n, M: m + 1, Text: "ProveTree"})
+				}
+				intact("ProveTree", n, m+1)
+			}
+		}
+		if n < int64(N) {
+			hs, err := tlog.StoredHashes(n, lg.Records[n], sub)
+			if err != nil || len(hs) == 0 || hs[0] != lg.Store[cnt] {
+				r.Violation(fmt.Sprintf("aliasing:storedhashes:%d", n), fmt.Sprintf("StoredHashes(%d) over a reader that hands out its own memory: err=%v", n, err), caseT{Kind: "aliasing", N: n, Text: "StoredHashes"})
+			}
+			for i := range hs {
+				if hs[i] != lg.Store[int(cnt)+i] {
+					r.Violation(fmt.Sprintf("aliasing:storedhashes:%d", n), fmt.Sprintf("StoredHashes(%d) hash %d differs from the one computed with a copying reader", n, i), caseT{Kind: "aliasing", N: n, Text: "StoredHashes"})
+				}
+			}
+			intact("StoredHashes", n, 0)
+		}
+		l.Nontrivial++
+	}
+}
+
 func history(r *fw.Run, pat, N, nSmall int) {
 	l := fw.NewLocal()
 	defer r.Merge(l)
@@ -227,6 +333,12 @@ func Run(r *fw.Run) {
 	fw.Parallel(3, func(pat int) { history(r, pat, N, nSmall) })
 	r.Sample(map[string]any{"kind": "layout", "position": 10, "coordinates": fmt.Sprint(tlog.SplitStoredHashIndex(10)), "count_for_7_records": tlog.StoredHashCount(7)})
 
+	// readers that hand out their own memory: a zero-copy store (consecutive positions come back as a
+	// sub-slice of the store) and a memoising reader (the same slice again for the same request). Reading
+	// must not write: after every TreeHash / ProveRecord / ProveTree / StoredHashes call the store is
+	// unchanged, and the same call repeated gives the same (correct) result.
+	aliasing(r)
+
 	// record lengths: the leaf hash is SHA-256(0x00 || data) for every length (block boundaries, buffers)
 	{
 		l := fw.NewLocal()
@@ -403,6 +515,8 @@ func Replay(r *fw.Run, raw json.RawMessage) {
 			n = 1
 		}
 		history(r, c.Pattern, n+1, n+1)
+	case "aliasing":
+		aliasing(r)
 	case "recordhash":
 		r.Note("record-hash cases are re-run by the full check")
 	case "coord":
